@@ -18,6 +18,12 @@ class C20(Check):
     trusted = ["hex/base64/base32 text codecs of Go's encoding/* are outside the model (fields held as the octets they denote)",
                "EDNS0 option and SVCB parameter values are (code, packed value, reported length) triples at this level"]
 
+    partial = ["'for records obtained from the wire, duplicates exactly when type, class and the lower-cased uncompressed owner and RDATA octets "
+               "are equal': proved for names (name_equal_iff_lowercased_wire_equal) and as table cross-checks (every packed field is "
+               "compared; name fields and only name fields case-insensitively); the RDATA-octet statement itself is checked by the "
+               "harness oracle on wire-obtained pairs, not proved",
+               "'holds between a record and its copy': reflexivity on typed values; the link to the copy model (C16) is by the harness"]
+
     def nontrivial(self, c):
         return len(c["args"][0]) > 80
 
